@@ -21,6 +21,10 @@ def run(ctx):
                  tag="interface handles kept across Reset: all histories to depth 5")
     hb = [b for b in ctx.behaviours(gh) if any(x["op"] == "Reset" for x in b) and b[-1]["op"] == "Call"]
     replay_family(ctx, "iface", hb, env={"GODEBUG": "clobberfree=1"}, batch=4000)
+    # one function reached through TWO routes of one builder (Struct(&S{}).Method("G") and the method expression Func((*S).G)): the
+    # most recent instruction through any handle decides, a Cancel through the older route included (Routes.tla)
+    gr = ctx.tlc("Routes", "Gen_Routes.cfg", workers=1, timeout=900, constants={"MaxOps": 5 if q else 6}, tag="two routes to one function: all histories")
+    replay_family(ctx, "routes", ctx.behaviours(gr))
     ctx.cov["exhaustive"] = True
     ctx.cov["rule"] = ("every history over {Apply,Return,Returns,When,Cancel,Reset,Call} up to the stated depth on the "
                        "bounded constants plus seeded random length-10 histories over all ops (incl. Origin); each "
